@@ -187,6 +187,11 @@ def run_kani(scratch, harnesses, cap_s, mem_gb, jobs, extra_args=(), stubbing=Fa
                 r["time_s"] = float(m.group(1))
             if "unwinding failures" in txt:
                 r["unwind_fail"] = True
+            # cover statements: every one must be SATISFIED (UNSATISFIABLE / UNREACHABLE = vacuous harness)
+            cov = re.findall(r"\.cover\.\d+\s*\n\s*- Status: (\w+)", txt)
+            if cov:
+                r["covers_total_file"] = len(cov)
+                r["covers_sat_file"] = sum(1 for c in cov if c == "SATISFIED")
     if data:
         for pd in data.get("property_details", []):
             r = results.get(pd["harness_id"])
@@ -288,7 +293,19 @@ def parse_terse(raw):
     return res
 
 
-def classify(h, r):
+TAGS = re.compile(r"\[((?:C\d\d|STEP[LS])(?:,(?:C\d\d|STEP[LS]))*)\]")
+
+
+def applies(desc, prop):
+    """assertion messages of shared harnesses carry the ids of the properties they express ([C01,C14] ...);
+    untagged failures (panics, overflows, index errors inside the real code) count for every property"""
+    m = TAGS.search(desc)
+    if not m or prop is None or prop.startswith("STEP"):
+        return True
+    return prop in m.group(1).split(",")
+
+
+def classify(h, r, prop=None):
     """Map a harness result to 'ok' | 'violation' | 'inconclusive' with a reason."""
     st = r["status"]
     if h.expect == "fail":
@@ -299,6 +316,8 @@ def classify(h, r):
             return "inconclusive", "vacuity canary passed: the harness family does not reach its assertions"
         return "inconclusive", "canary %s" % st
     if st == "success":
+        if "covers_total_file" in r:
+            r["covers_total"], r["covers_sat"] = r["covers_total_file"], r["covers_sat_file"]
         if r.get("covers_total", 0) != r.get("covers_sat", 0):
             return "inconclusive", "cover property unsatisfiable (%d of %d): harness is (partly) vacuous on this tree" % (
                 r.get("covers_sat", 0), r.get("covers_total", 0))
@@ -306,7 +325,10 @@ def classify(h, r):
             return "inconclusive", "undetermined checks"
         return "ok", ""
     if st == "failed":
-        real = [c for c in r.get("failed_checks", []) if "unwinding assertion" not in c["description"]]
+        real_all = [c for c in r.get("failed_checks", []) if "unwinding assertion" not in c["description"]]
+        real = [c for c in real_all if applies(c["description"], prop)]
+        if real_all and not real and not r.get("unwind_fail"):
+            return "ok", "assertions of other properties failed (%s); none of this property's" % "; ".join(sorted({c["description"][:60] for c in real_all}))
         if r.get("unwind_fail") and not real:
             where = sorted({"%s (%s:%s)" % (c["function"], c["file"], c["line"]) for c in r.get("failed_checks", [])})
             return "inconclusive", "unwinding assertion failed: bound too small for this tree: " + "; ".join(where[:4])
